@@ -4,7 +4,7 @@
     determined by the ITS atom's labels up to the typesGH fallback, which [flat] keeps. *)
 From Coq Require Import List NArith ZArith Bool Lia.
 From SK Require Import lib.LGraph lib.C01_GraphLemmas model.C01_Model model.C01_Opts model.C02_Model model.C02_Store
-                       proof.C02_Proof proof.C02_Opts proof.C02_OptsEquiv proof.C02_Store proof.C02_StoreCtx.
+                       proof.C02_Proof proof.C02_Opts proof.C02_OptsEquiv proof.C02_Lre proof.C02_Sides2 proof.C02_Store proof.C02_StoreCtx.
 (* [extract_k_S] is the definition of model/C02_Store.v (proof/C02_Proof.v has a lemma of that name) *)
 From SK Require Import lib.Reach model.C02_Store.
 Import ListNotations.
@@ -198,3 +198,89 @@ Proof.
   { apply (rcx_nodes K d m (gmapn flat g) Wf). exists c. split; [exact Lc|]. left. split; [exact IE|reflexivity]. }
   eapply label_some_node; eauto.
 Qed.
+
+(** * the centre of a store=True ITS stated on the two sides (theorem 20' for ITSConstruction.construct(store=True)) *)
+Lemma construct_ab_o ia bal G H : its_construct_ab ia bal G H = its_construct_o (CO ia bal dflt_nattr) G H.
+Proof. reflexivity. Qed.
+
+Lemma label_gmap {A A' B B'} (fn : A -> A') (fe : B -> B') (g : lgraph A B) n : label (gmap fn fe g) n = option_map fn (label g n).
+Proof. unfold label, gmap. simpl. apply (assoc_map_val (fun _ a => fn a)). Qed.
+
+Theorem centre_vs_sides_store_true ia bal (G H : mgraph) : wf G -> wf H ->
+  let S := its_construct_S (CO ia bal dflt_nattr) G H in
+  el_same S ->
+  forall u v,
+    (exists e, adj (get_rc_S K_default false false (emb_S S)) u v = Some e) <->
+    (adj G u v <> None \/ adj H u v <> None) /\
+    ((if ia then 2 <= Z.abs (order_in G u v - order_in H u v) else order_in G u v <> order_in H u v) \/
+     (is_h_g ish_S (emb_S S) u = true /\ is_h_g ish_S (emb_S S) v = true)).
+Proof.
+  intros WG WH S Hs u v.
+  assert (adj (get_rc_S K_default false false (emb_S S)) u v =
+          option_map (fun e : iedge => (e, Some false)) (adj (get_rc (its_construct_ab ia bal G H)) u v)) as A.
+  { change (adj (get_rc_S K_default false false (emb_S S)) u v) with (adj (gmapn flat (get_rc_S K_default false false (emb_S S))) u v).
+    unfold S. rewrite (rcS_construct K_default false false _ G H Hs), <- construct_ab_o, rcx_default_emb.
+    unfold adj, gmap. simpl. apply find_edge_map. }
+  assert (forall n, is_h_g ish_S (emb_S S) n = is_h (its_construct_ab ia bal G H) n) as Ih.
+  { intros n. rewrite is_h_emb_S, construct_ab_o, <- (twin_construct (CO ia bal dflt_nattr) G H). fold S. unfold is_h.
+    rewrite label_gmap. destruct (label S n) as [a|] eqn:L; simpl; [|reflexivity].
+    rewrite <- (Hs n a (assoc_in n (gnodes S) L)). destruct (N.eqb (fst (s_el a)) EL_H); reflexivity. }
+  rewrite !Ih, <- (centre_vs_sides_all ia bal G H WG WH u v), A.
+  destruct (adj (get_rc (its_construct_ab ia bal G H)) u v) as [e|]; simpl; split.
+  - intros _. exists e. reflexivity.
+  - intros _. eexists. reflexivity.
+  - intros (e & C). discriminate.
+  - intros (e & C). discriminate.
+Qed.
+
+(** non-vacuity: H-H + C=C -> H-H + C-C through construct(store=True): both bonds in the centre *)
+Definition sv_G : mgraph := LG [(1%N, GN 2%N false 0 0 (Some []) 1); (2%N, GN 2%N false 0 0 (Some []) 2); (3%N, GN 70%N false 2 0 (Some []) 3); (4%N, GN 70%N false 2 0 (Some []) 4)]
+                               [(1%N, 2%N, 2); (3%N, 4%N, 4)].
+Definition sv_H : mgraph := LG [(1%N, GN 2%N false 0 0 (Some []) 1); (2%N, GN 2%N false 0 0 (Some []) 2); (3%N, GN 70%N false 3 0 (Some []) 3); (4%N, GN 70%N false 3 0 (Some []) 4)]
+                               [(1%N, 2%N, 2); (3%N, 4%N, 2)].
+Example C02_sides_store_true_nonvacuous :
+  el_same (its_construct_S (CO false true dflt_nattr) sv_G sv_H) /\
+  adj (get_rc_S K_default false false (emb_S (its_construct_S (CO false true dflt_nattr) sv_G sv_H))) 1%N 2%N = Some (IE 2 2 0, Some false) /\
+  adj (get_rc_S K_default false false (emb_S (its_construct_S (CO false true dflt_nattr) sv_G sv_H))) 3%N 4%N = Some (IE 4 2 2, Some false).
+Proof.
+  split; [|vm_compute; split; reflexivity].
+  intros n a I. vm_compute in I. repeat (destruct I as [I|I]; [inversion I; reflexivity|]). destruct I.
+Qed.
+
+(** * extract_k option handling on graphs of any label shape, n_knn = -1 through the skeleton *)
+Lemma adj_skel {A} (g : lgraph A xedge) u v : adj (skel g) u v = option_map (@fst iedge (option bool)) (adj g u v).
+Proof. unfold adj, skel, gmap. simpl. apply find_edge_map. Qed.
+
+Lemma node_ids_skel {A} (g : lgraph A xedge) : node_ids (skel g) = node_ids g.
+Proof. unfold node_ids, skel, gmap. simpl. rewrite map_map. reflexivity. Qed.
+
+(** a bond of the skeleton with standard_order 0 is a bond of the graph with standard_order 0 *)
+Lemma std0_skel {A} (g : lgraph A xedge) u v :
+  std0 (skel g) u v = match adj g u v with Some x => e_std (fst x) =? 0 | None => false end.
+Proof. unfold std0. rewrite adj_skel. destruct (adj g u v); reflexivity. Qed.
+
+Theorem extract_k_S_z_nonneg (g : sits) k : 0 <= k -> extract_k_S_z g k = extract_k_S g (Z.to_nat k).
+Proof.
+  intros Hk. unfold extract_k_S_z. destruct (Z.eqb_spec k 0) as [->|Hne]; [reflexivity|].
+  destruct (Z.eqb_spec k (-1)); [lia|]. destruct (Z.to_nat k) as [|j] eqn:E; [lia|]. reflexivity.
+Qed.
+
+Theorem extract_k_S_z_minus1 (g : sits) : wf g ->
+  let rcn := node_ids (get_rc_S K_default false false g) in
+  let r := length (lre (skel g) rcn) in
+  extract_k_S_z g (-1) = ball_sub g rcn r /\
+  (forall n, In n (node_ids (extract_k_S_z g (-1))) <-> dist_le_g g rcn r n) /\
+  (lre (skel g) rcn = [] \/
+   exists n ext, In n rcn /\ lre (skel g) rcn = n :: ext /\ zchain (skel g) n ext /\ NoDup (n :: ext)).
+Proof.
+  intros W rcn r. split; [reflexivity|]. split; [|apply lre_path].
+  change (extract_k_S_z g (-1)) with (ball_sub g rcn r).
+  destruct (ball_sub_spec g rcn r W) as (N1 & _); [|exact N1].
+  intros s. apply rcS_nodes_in. exact (proj1 W).
+Qed.
+
+Example C02_S_lre_nonvacuous :
+  lre (skel (emb_S ctxS_ex)) (node_ids (get_rc_S K_default false false (emb_S ctxS_ex))) = [4%N; 5%N; 6%N] /\
+  node_ids (extract_k_S_z (emb_S ctxS_ex) (-1)) = [1%N; 2%N; 3%N; 4%N; 5%N; 6%N] /\
+  extract_k_S_z (emb_S ctxS_ex) 1 = extract_k_S (emb_S ctxS_ex) 1.
+Proof. vm_compute. repeat split; reflexivity. Qed.
